@@ -286,6 +286,8 @@ const SOURCES: &[(&str, bool, Option<&str>)] = &[
     ("not a url", true, None),
     // the request host merely ends with this host's text (no label boundary): third-party
     ("https://ds.net/", true, Some("ds.net")),
+    // five labels in front of the registrable domain (every parent domain must still count)
+    ("https://a.b.c.d.sub.ads.net/", false, Some("a.b.c.d.sub.ads.net")),
 ];
 const SCHEMES: &[&str] = &["http", "https", "ws", "wss", "ftp", "data"];
 
@@ -457,6 +459,8 @@ pub fn run(ctx: &mut Ctx) {
     random_domains(ctx);
     match_case(ctx);
     neighbours(ctx);
+    // requests with unsupported schemes are never matched, whichever constructor built them
+    crate::mon::c12::preparsed_schemes(ctx, "C03");
 }
 
 /// Options must not bleed between rules that share a bucket (and, with optimisation on, a fusion
@@ -620,7 +624,7 @@ fn exhaustive(ctx: &mut Ctx) {
     }
     if complete && ctx.only_case.is_none() {
         ctx.report.exhaustive.push(format!(
-            "option sets with <= {} type atoms x document x party x important x 9 rule kinds x 22 request type strings x 8 initiators x 6 schemes (this shard's share)",
+            "option sets with <= {} type atoms x document x party x important x 9 rule kinds x 22 request type strings x 9 initiators x 6 schemes (this shard's share)",
             "2"
         ));
     }
